@@ -4,7 +4,10 @@
 
   header   W router users=<n> tokens=<k> template=<0|1> funds=<amount> foreign=<t1:t2:total:special,…|->
   accounts 1..n are users, 100 is the owner, 200 the router, 900.. foreign pairs, 1000.. pairs
-  deployed by the router (in order of successful creation).
+  deployed by the router (in order of successful creation).  Token ids: 0 = invalid, 1..k funded
+  pool tokens, k+1 valid but unfunded, 501 / 502 = the LOCKED collections of the two simple-lock
+  contracts; an LP token is named by its pair's address.  A locked-token class is written
+  `coll/orig/unlock` in results and as three arguments `coll orig unlock` in op lines.
 -/
 import MxModel.Core.Router
 import MxModel.Driver.Proto
@@ -58,6 +61,19 @@ def parseOp : List String → Option Op
       pure (.swapIn (← u.toNat?) (← a.toNat?) (← ti.toNat?) (← x.toNat?) (← to.toNat?) (← m.toNat?))
   | ["swapOut", u, a, ti, mx, to, o] => do
       pure (.swapOut (← u.toNat?) (← a.toNat?) (← ti.toNat?) (← mx.toNat?) (← to.toNat?) (← o.toNat?))
+  | ["cfgEnable", c, common, locked, mv, mp] => do
+      pure (.configEnable (← c.toNat?) (← common.toNat?) (← locked.toNat?) (← mv.toNat?) (← mp.toNat?))
+  | "addCommon" :: c :: ts => do pure (.addCommon (← c.toNat?) (← ts.mapM String.toNat?))
+  | "removeCommon" :: c :: ts => do pure (.removeCommon (← c.toNat?) (← ts.mapM String.toNat?))
+  | ["enableByUser", c, a, coll, orig, unl, x] => do
+      pure (.enableByUser (← c.toNat?) (← a.toNat?) ⟨← coll.toNat?, ← orig.toNat?, ← unl.toNat?⟩ (← x.toNat?))
+  | ["enablePlain", c, a, t, x] => do
+      pure (.enablePlain (← c.toNat?) (← a.toNat?) (← t.toNat?) (← x.toNat?))
+  | ["lock", u, coll, orig, x, unl] => do
+      pure (.lock (← u.toNat?) (← coll.toNat?) (← orig.toNat?) (← x.toNat?) (← unl.toNat?))
+  | ["unlock", u, coll, orig, unl, x] => do
+      pure (.unlock (← u.toNat?) ⟨← coll.toNat?, ← orig.toNat?, ← unl.toNat?⟩ (← x.toNat?))
+  | ["advance", e] => do pure (.advance (← e.toNat?))
   | _ => none
 
 def showStatus : Mx.Pair.Status → String
@@ -77,13 +93,28 @@ def showPair (s : St) (a : Addr) : String :=
   | none => s!"{a}:?"
   | some p =>
     let q := p.st
-    s!"{a}:{p.t1}:{p.t2}:{showStatus q.status}:{q.r1}:{q.r2}:{q.S}:{q.bal1}:{q.bal2}:{q.lpOwn}"
+    s!"{a}:{p.t1}:{p.t2}:{showStatus q.status}:{q.r1}:{q.r2}:{q.S}:{q.bal1}:{q.bal2}:{q.lpOwn}" ++
+    s!":{q.total}:{q.special}:{q.adder.getD 0}"
+
+def showLTok (k : LTok) : String := s!"{k.coll}/{k.orig}/{k.unlock}"
+
+def showBack : Option (LTok × Nat) → String
+  | some (k, x) => s!"{showLTok k}:{x}"
+  | none => "-"
+
+/-- token ids a config may be stored under that the state line reports -/
+def cfgToks (k : Nat) : List Nat := (List.range (k + 1)).map (· + 1) ++ [LOCK_A, LOCK_B]
+
+def showCfg (s : St) (k : Nat) : String :=
+  orDash (",".intercalate ((cfgToks k).filterMap fun t =>
+    (s.enableCfg t).map fun c => s!"{t}:{c.lockedTok}:{c.minValue}:{c.minPeriod}"))
 
 def toks (k : Nat) : List Nat := (List.range k).map (· + 1)
 
 def showUser (d : DSt) (u : Nat) : String :=
   let b := d.s.ubal u
-  s!"{u}:{joinNats ((toks d.ntok).map b)}:{orDash (joinNats (d.s.addrs.map b))}"
+  s!"{u}:{joinNats ((toks d.ntok).map b)}:{orDash (joinNats (d.s.addrs.map b))}" ++
+  s!":{orDash (joinNats (d.s.lkeys.map (d.s.lbal u)))}"
 
 /-- total burned of token `t` over all pairs -/
 def burned (s : St) (t : Tok) : Nat :=
@@ -96,7 +127,11 @@ def showState (d : DSt) : String :=
   let s := d.s
   let reg := orDash (",".intercalate (s.pairMap.map fun e => s!"{e.1.1}-{e.1.2}-{e.2}"))
   s!"act={showBool s.active} cre={showBool s.creationEnabled} tpl={showBool s.templateSet} " ++
-  s!"reg={reg} rb={joinNats ((toks d.ntok).map s.rbal)} burn={joinNats ((toks d.ntok).map (burned s))} " ++
+  s!"ep={s.epoch} reg={reg} rb={joinNats ((toks d.ntok).map s.rbal)} " ++
+  s!"rlk={orDash (joinNats (s.lkeys.map (s.lbal s.self)))} " ++
+  s!"burn={joinNats ((toks d.ntok).map (burned s))} " ++
+  s!"wl={orDash (joinNats s.commonToks)} cfg={showCfg s d.ntok} " ++
+  s!"lks={orDash (",".intercalate (s.lkeys.map showLTok))} " ++
   s!"pairs={orDash (";".intercalate (s.addrs.map (showPair s)))} " ++
   s!"users={";".intercalate (d.accts.map (showUser d))}"
 
@@ -134,6 +169,10 @@ def view (d : DSt) : List String → Option String
       let dir ← dirForIn p (← tokWanted.toNat?)
       let v ← Mx.Pair.viewAmountIn p.st dir.flip (← x.toNat?)
       pure (toString v)
+  | ["enableCfg", t] => do
+      -- `getEnableSwapByUserConfig(token)`: "No config set" unless one is stored
+      let c ← d.s.enableCfg (← t.toNat?)
+      pure s!"{c.lockedTok} {c.minValue} {c.minPeriod}"
   | _ => none
 
 def handle (d : DSt) (line : String) : DSt × Option String :=
@@ -143,7 +182,7 @@ def handle (d : DSt) (line : String) : DSt × Option String :=
       match (parseOp rest).bind (step d.s) with
       | some (s', o) =>
           let d' := { d with s := s' }
-          (d', some s!"R {n} ok a={o.addr} p={showPays o.pays} v={o.v1},{o.v2},{o.v3} | {showState d'}")
+          (d', some s!"R {n} ok a={o.addr} p={showPays o.pays} v={o.v1},{o.v2},{o.v3} lk={showBack o.back} | {showState d'}")
       | none => (d, some s!"R {n} err")
   | "Q" :: n :: rest =>
       match view d rest with
